@@ -3,7 +3,7 @@
     OCaml natives; N, positive and nat stay the extracted inductive types. *)
 Require Extraction.
 Require Import ExtrOcamlBasic.
-From RepeV Require Import Model.C01 Model.C02 Model.C11 Model.Condvar Model.Peers Model.Fleet Model.Limits Model.Svs Model.Json Model.Registry Model.Beve Model.SvsCommit Model.JsonPtr Model.Router.
+From RepeV Require Import Model.C01 Model.C02 Model.C11 Model.Condvar Model.Peers Model.Fleet Model.Limits Model.Svs Model.Json Model.Registry Model.Beve Model.SvsCommit Model.JsonPtr Model.Router Model.Route Model.OffReader Model.ClientMux Model.Lifecycle Model.ClientFail.
 Separate Extraction
   Model.C01.model_C01 Model.C01.ok_C01 Model.C01.c01_wf
   Model.C02.model_C02 Model.C02.ok_C02
@@ -17,4 +17,9 @@ Separate Extraction
   Model.Registry.model_C14 Model.Registry.model_full Model.Registry.ok_C14 Model.Registry.c14_wf Model.Registry.spec_C14 Model.Registry.ostep_eqb Model.Registry.rstep Model.Registry.sstep Model.Registry.obs_out Model.Registry.is_request Model.Registry.jp_eval Model.Registry.jp_parse Model.Registry.rstate0 Model.Registry.sstate0
   Model.Beve.model_C08 Model.Beve.ok_C08 Model.Beve.c08_wf Model.Beve.ety_all
   Model.SvsCommit.model_C10 Model.SvsCommit.ok_C10 Model.SvsCommit.c10_wf Model.SvsCommit.c10_obs_match
-  Model.Router.model_C07 Model.Router.ok_C07 Model.Router.ok_C07_pair Model.Router.answer_eqb Model.JsonPtr.parse Model.JsonPtr.struct_segments Model.JsonPtr.well_escaped Model.JsonPtr.pointer_shaped.
+  Model.Router.model_C07 Model.Router.ok_C07 Model.Router.ok_C07_pair Model.Router.answer_eqb Model.JsonPtr.parse Model.JsonPtr.struct_segments Model.JsonPtr.well_escaped Model.JsonPtr.pointer_shaped
+  Model.Route.model_C03 Model.Route.ok_C03 Model.Route.c03_wf Model.Route.c03_obs_eqb
+  Model.OffReader.model_C16 Model.OffReader.ok_C16 Model.OffReader.ok_C16_clause Model.OffReader.c16_wf Model.OffReader.c16_obs_eqb
+  Model.ClientMux.model_C04 Model.ClientMux.ok_C04 Model.ClientMux.c04_wf Model.ClientMux.c04_obs_eqb Model.ClientMux.brun
+  Model.Lifecycle.model_C15 Model.Lifecycle.ok_C15 Model.Lifecycle.c15_wf Model.Lifecycle.c15_obs_match
+  Model.ClientFail.model_C06 Model.ClientFail.ok_C06 Model.ClientFail.c06_wf Model.ClientFail.c06_valid Model.ClientFail.obs_eqb.
